@@ -38,8 +38,8 @@ type rCase struct {
 	SelfTest bool `json:"selftest,omitempty"`
 }
 
-// retrySelfTest: data "abcdef".  These steps have no Impl column (the driver answers "-"), so the engine
-// files a passing one under `moved-to-spec` (Go = Spec); a wrong verdict of the checker is a violation.
+// retrySelfTest: data "abcdef".  `Go` holds the verdict the checker must give; the driver answers with the
+// verdict it computes in both columns, so a wrong verdict of the checker is a violation.
 func retrySelfTest() []Step {
 	data := hex.EncodeToString([]byte("abcdef"))
 	var steps []Step
